@@ -1,12 +1,1022 @@
-//! C14 — stub (not built yet).
+//! C14 — polynomial root finding returns the complete, accurate multiset of roots; zeros of
+//! Legendre / Hermite / Laguerre polynomials.
+//!
+//! Oracle (independent of the code under test):
+//!  * the true roots of the polynomial actually handed to the library are obtained by Newton
+//!    iteration in double-double arithmetic (≈ 32 digits) started from the roots the polynomial
+//!    was constructed from;
+//!  * residuals |p(z)| of the returned values are evaluated in double-double arithmetic;
+//!  * orthogonal-polynomial zeros come from the symmetric Jacobi matrix (nalgebra eigen-solver)
+//!    polished by Newton on the division-free three-term recurrence in double-double arithmetic.
+
+use crate::json::J;
+use crate::probe::{self, Guarded};
 use crate::report::*;
+use crate::rng::{CaseHash, Rng};
+use bacon_sci::polynomial::Polynomial;
+use bacon_sci::special::{hermite_zeros, laguerre_zeros, legendre_zeros};
+use num_complex::Complex;
+
+type C = Complex<f64>;
+
+const EPS: f64 = f64::EPSILON;
+
+// ------------------------------------------------------------------ frozen constants
+/// residual bound: |p(z)| <= K_RES * (tol + eps * p~(|z|))
+const K_RES: f64 = 8.0;
+/// matching bound: |z - r| <= K_MATCH * (tol + eps * p~(|r|)) / |p'(r)| + FLOOR_ULPS * eps * |r|
+const K_MATCH: f64 = 8.0;
+/// zeros of orthogonal polynomials: |z - r| <= K_ZERO * (tol * max(1, 1/|p'(r)|) + eps * p~(|r|)/|p'(r)|) + FLOOR_ULPS * eps * |r|
+const K_ZERO: f64 = 8.0;
+const FLOOR_ULPS: f64 = 16.0;
+/// smallest tolerance used: TOL_NOISE * (2 n eps) * max(p~(rho), max_r p~(|r|)/|p'(r)|), rho = max(1, max|r|)
+/// (2 n eps p~ is the classical bound of the rounding error of Horner's rule; below it neither the
+/// absolute residual test of the Laguerre stage nor the update test |p/p'| <= tol of the
+/// polishing stage can be met reliably by any implementation)
+const TOL_NOISE: f64 = 2.0;
+const N_MAX: usize = 1000;
+const MIN_SEP: f64 = 0.3;
+const DISC: f64 = 3.0;
 
 pub fn meta() -> CheckMeta {
-    CheckMeta { id: "C14", level: "exploration", rule: "stub".into(), assumptions: vec![], exhaustive: false, stuck_is_violation: false }
+    CheckMeta {
+        id: "C14",
+        level: "exploration",
+        rule: "cases: polynomials of degree 1..10 expanded from roots with pairwise separation >= 0.3 in the disc of radius 3 (real: conjugate-closed, through Polynomial<f64>; complex: through Polynomial<Complex<f64>>), leading coefficient scaled by 10^[-2,2] (complex phase for complex ones), sparse members x^n - c and prod(x^m - c_i) built exactly (set_coefficient, interior coefficients exactly 0) and expanded from their roots in f64 (interior coefficients ~1e-16), tolerances log-uniform from max(1e-6, floor) down to the rounding-noise floor; four pinned inputs (stage cycle-anchors) on which the Laguerre iteration once fell into a two-cycle; zeros of Legendre/Hermite n=0..16 and Laguerre n=0..12 for a ladder of tolerances. A case is non-trivial when the degree is >= 3 (Laguerre iteration + deflation + Newton polish path); distinct = distinct hash of (number type, coefficients, tol) resp. (family, n, tol)".into(),
+        assumptions: vec![
+            "true roots = double-double Newton refinement (harness) of the constructing roots on the coefficients actually passed; a case whose refinement does not converge to 1e-24 or moves by more than 1e-6 is inconclusive".into(),
+            "tolerance floor: tol >= 2*(2n eps)*max(p~(rho), max_r p~(|r|)/|p'(r)|), rho = max(1,max|r|), p~(x)=sum|a_k|x^k: below the rounding noise of Horner's rule the absolute stopping rules cannot be met by any implementation; tol must also stay below |leading coefficient| (the library rejects a leading coefficient < tol, 'non-negligible leading coefficient')".into(),
+            "n_max = 1000 iterations for every stage of the root finder".into(),
+            "orthogonal zeros: accuracy unit is tol*max(1,1/|p'(r)|) + eps*p~(|r|)/|p'(r)| of the monomial form (exact integer/rational coefficients computed by the harness); Laguerre indices whose leading coefficient 1/n! is not above twice the tolerance floor are skipped and counted".into(),
+        ],
+        exhaustive: false,
+        stuck_is_violation: true,
+    }
 }
-pub fn stages(_ctx: &Ctx) -> Vec<Stage> {
-    vec![]
+
+// ------------------------------------------------------------------ double-double arithmetic
+pub mod dd {
+    use num_complex::Complex;
+
+    #[derive(Clone, Copy, Debug)]
+    pub struct D {
+        pub hi: f64,
+        pub lo: f64,
+    }
+    #[inline]
+    fn two_sum(a: f64, b: f64) -> (f64, f64) {
+        let s = a + b;
+        let bb = s - a;
+        (s, (a - (s - bb)) + (b - bb))
+    }
+    #[inline]
+    fn quick_two_sum(a: f64, b: f64) -> (f64, f64) {
+        let s = a + b;
+        (s, b - (s - a))
+    }
+    #[inline]
+    fn split(a: f64) -> (f64, f64) {
+        let t = 134217729.0 * a;
+        let hi = t - (t - a);
+        (hi, a - hi)
+    }
+    #[inline]
+    fn two_prod(a: f64, b: f64) -> (f64, f64) {
+        let p = a * b;
+        let (ah, al) = split(a);
+        let (bh, bl) = split(b);
+        (p, ((ah * bh - p) + ah * bl + al * bh) + al * bl)
+    }
+    impl D {
+        pub fn f(a: f64) -> D {
+            D { hi: a, lo: 0.0 }
+        }
+        #[inline]
+        pub fn add(self, b: D) -> D {
+            let (s, e) = two_sum(self.hi, b.hi);
+            let (t, f) = two_sum(self.lo, b.lo);
+            let (s, e) = quick_two_sum(s, e + t);
+            let (s, e) = quick_two_sum(s, e + f);
+            D { hi: s, lo: e }
+        }
+        #[inline]
+        pub fn neg(self) -> D {
+            D { hi: -self.hi, lo: -self.lo }
+        }
+        #[inline]
+        pub fn sub(self, b: D) -> D {
+            self.add(b.neg())
+        }
+        #[inline]
+        pub fn mul(self, b: D) -> D {
+            let (p, e) = two_prod(self.hi, b.hi);
+            let e = e + (self.hi * b.lo + self.lo * b.hi);
+            let (p, e) = quick_two_sum(p, e);
+            D { hi: p, lo: e }
+        }
+        #[inline]
+        pub fn mulf(self, b: f64) -> D {
+            self.mul(D::f(b))
+        }
+        pub fn val(self) -> f64 {
+            self.hi + self.lo
+        }
+    }
+
+    /// complex double-double
+    #[derive(Clone, Copy, Debug)]
+    pub struct Z {
+        pub re: D,
+        pub im: D,
+    }
+    impl Z {
+        pub fn c(z: Complex<f64>) -> Z {
+            Z { re: D::f(z.re), im: D::f(z.im) }
+        }
+        #[inline]
+        pub fn add(self, b: Z) -> Z {
+            Z { re: self.re.add(b.re), im: self.im.add(b.im) }
+        }
+        #[inline]
+        pub fn sub(self, b: Z) -> Z {
+            Z { re: self.re.sub(b.re), im: self.im.sub(b.im) }
+        }
+        #[inline]
+        pub fn mul(self, b: Z) -> Z {
+            Z { re: self.re.mul(b.re).sub(self.im.mul(b.im)), im: self.re.mul(b.im).add(self.im.mul(b.re)) }
+        }
+        pub fn val(self) -> Complex<f64> {
+            Complex::new(self.re.val(), self.im.val())
+        }
+    }
+
+    /// p(z) and p'(z) by Horner's rule; coefficients ascending
+    pub fn eval(asc: &[Complex<f64>], z: Z) -> (Z, Z) {
+        let n = asc.len();
+        let mut acc = Z::c(asc[n - 1]);
+        let mut der = Z::c(Complex::new(0.0, 0.0));
+        for k in (0..n - 1).rev() {
+            der = der.mul(z).add(acc);
+            acc = acc.mul(z).add(Z::c(asc[k]));
+        }
+        (acc, der)
+    }
 }
-pub fn thresholds(_ctx: &Ctx, _rep: &Report) -> Vec<Threshold> {
-    vec![Threshold { what: "check not built".into(), required: 1.0, observed: 0.0 }]
+use dd::{D, Z};
+
+/// p~(x) = sum |a_k| x^k
+fn ptilde(asc: &[C], x: f64) -> f64 {
+    let mut acc = 0.0;
+    for c in asc.iter().rev() {
+        acc = acc * x + c.norm();
+    }
+    acc
+}
+
+/// Refine a root of the polynomial `asc` in double-double arithmetic. Returns (root, |p'(root)|)
+/// or None if the iteration did not converge.
+fn refine(asc: &[C], start: C) -> Option<(C, f64)> {
+    let mut z = Z::c(start);
+    let mut last = f64::INFINITY;
+    for _ in 0..12 {
+        let (p, d) = dd::eval(asc, z);
+        let step = p.val() / d.val();
+        if !step.norm().is_finite() {
+            return None;
+        }
+        z = z.sub(Z::c(step));
+        last = step.norm();
+        if last <= 1e-26 * (1e-3 + z.val().norm()) {
+            break;
+        }
+    }
+    let zz = z.val();
+    if !(last <= 1e-24 * (1e-3 + zz.norm())) && !(last <= 1e-300) {
+        return None;
+    }
+    let (_, d) = dd::eval(asc, z);
+    Some((zz, d.val().norm()))
+}
+
+// ------------------------------------------------------------------ matching
+/// maximum bipartite matching (Kuhn); adj[i] = admissible j
+fn perfect_matching(adj: &[Vec<usize>]) -> bool {
+    let n = adj.len();
+    let mut mate: Vec<Option<usize>> = vec![None; n];
+    fn try_i(i: usize, adj: &[Vec<usize>], seen: &mut [bool], mate: &mut [Option<usize>]) -> bool {
+        for &j in &adj[i] {
+            if seen[j] {
+                continue;
+            }
+            seen[j] = true;
+            if mate[j].is_none() || try_i(mate[j].unwrap(), adj, seen, mate) {
+                mate[j] = Some(i);
+                return true;
+            }
+        }
+        false
+    }
+    for i in 0..n {
+        let mut seen = vec![false; n];
+        if !try_i(i, adj, &mut seen, &mut mate) {
+            return false;
+        }
+    }
+    true
+}
+
+fn cj(z: &[C]) -> J {
+    J::Arr(z.iter().map(|c| J::Arr(vec![J::from(c.re), J::from(c.im)])).collect())
+}
+
+// ------------------------------------------------------------------ the case
+#[derive(Clone)]
+struct PolyCase {
+    flavour: &'static str,
+    /// through Polynomial<f64> (true) or Polynomial<Complex<f64>>
+    real_type: bool,
+    /// built with set_coefficient (only non-zero entries are set)
+    exact_sparse: bool,
+    asc: Vec<C>,
+    /// the roots the polynomial was constructed from
+    built_from: Vec<C>,
+    tol: f64,
+    /// pinned input k (1-based) of the "cycle-anchors" stage: tolerance is given, Err signature is its own
+    pin: Option<usize>,
+}
+
+impl PolyCase {
+    fn json(&self) -> J {
+        J::obj()
+            .set("call", if self.real_type { "Polynomial<f64>::roots(tol, n_max)" } else { "Polynomial<Complex<f64>>::roots(tol, n_max)" })
+            .set("flavour", self.flavour)
+            .set("construction", if self.exact_sparse { "Polynomial::new() + set_coefficient(k, a_k) for the non-zero a_k" } else { "coefficients.iter().collect() (ascending powers)" })
+            .set("coefficients_ascending_re_im", cj(&self.asc))
+            .set("constructed_from_roots_re_im", cj(&self.built_from))
+            .set("tol", self.tol)
+            .set("n_max", N_MAX)
+    }
+    fn hash(&self) -> u64 {
+        let mut h = CaseHash::new("c14").u(self.real_type as u64).u(self.exact_sparse as u64).f(self.tol);
+        for c in &self.asc {
+            h = h.f(c.re).f(c.im);
+        }
+        h.0
+    }
+    fn call(&self) -> Guarded<Result<Vec<C>, String>> {
+        let tol = self.tol;
+        if self.real_type {
+            let p: Polynomial<f64> = if self.exact_sparse {
+                let mut p = Polynomial::new();
+                for (k, c) in self.asc.iter().enumerate() {
+                    if c.re != 0.0 {
+                        p.set_coefficient(k as u32, c.re);
+                    }
+                }
+                p
+            } else {
+                self.asc.iter().map(|c| c.re).collect()
+            };
+            probe::guard(move || p.roots(tol, N_MAX).map(|v| v.into_iter().collect::<Vec<C>>()))
+        } else {
+            let p: Polynomial<C> = if self.exact_sparse {
+                let mut p = Polynomial::new();
+                for (k, c) in self.asc.iter().enumerate() {
+                    if c.re != 0.0 || c.im != 0.0 {
+                        p.set_coefficient(k as u32, *c);
+                    }
+                }
+                p
+            } else {
+                self.asc.iter().copied().collect()
+            };
+            probe::guard(move || p.roots(tol, N_MAX).map(|v| v.into_iter().collect::<Vec<C>>()))
+        }
+    }
+}
+
+/// plain f64 expansion of lead * prod (x - r)
+fn expand(roots: &[C], lead: C) -> Vec<C> {
+    let mut co = vec![C::new(1.0, 0.0)];
+    for r in roots {
+        let mut e = vec![C::new(0.0, 0.0); co.len() + 1];
+        for (i, c) in co.iter().enumerate() {
+            e[i + 1] += *c;
+            e[i] -= *c * *r;
+        }
+        co = e;
+    }
+    co.iter().map(|c| *c * lead).collect()
+}
+
+/// Noise floor of the tolerance for the polynomial with (refined) roots `roots`, |p'| at them in `dps`.
+fn tol_floor(asc: &[C], roots: &[C], dps: &[f64], residual_rule: bool) -> f64 {
+    let n = (asc.len() - 1) as f64;
+    let rho = roots.iter().map(|r| r.norm()).fold(1.0, f64::max);
+    let mut m = if residual_rule { ptilde(asc, rho) } else { 0.0 };
+    for (r, d) in roots.iter().zip(dps) {
+        m = m.max(ptilde(asc, r.norm()) / d);
+    }
+    TOL_NOISE * 2.0 * n * EPS * m
+}
+
+/// Fill in the tolerance (u in [0,1] selects it between the floor and max(1e-6, floor)) and run.
+/// Returns false when the case had to be dropped (class membership not decidable).
+fn run_poly(rep: &mut Report, mut pc: PolyCase, u: f64) {
+    let deg = pc.asc.len() - 1;
+    let fl = pc.flavour;
+    // true roots of the polynomial that is actually passed
+    let mut truth = vec![];
+    let mut dps = vec![];
+    for r in &pc.built_from {
+        match refine(&pc.asc, *r) {
+            Some((z, d)) if (z - *r).norm() <= 1e-6 && d > 0.0 && d.is_finite() => {
+                truth.push(z);
+                dps.push(d);
+            }
+            _ => {
+                rep.inconclusive("reference-root-refinement");
+                return;
+            }
+        }
+    }
+    let floor = tol_floor(&pc.asc, &truth, &dps, true);
+    let lead = pc.asc[deg].norm();
+    let hi = floor.max(1e-6);
+    if pc.pin.is_some() {
+        if !(pc.tol >= floor) {
+            rep.harness_errors.push(format!("pinned input {:?}: tolerance {:e} below the floor {:e}", pc.pin, pc.tol, floor));
+            return;
+        }
+    } else {
+        pc.tol = if u < 0.0 { floor } else { floor * (hi / floor).powf(u) };
+    }
+    if !(pc.tol < 0.5 * lead) {
+        // the library (rightly) refuses a leading coefficient below the tolerance
+        rep.count("skipped_tolerance_floor_above_leading_coefficient", 1);
+        return;
+    }
+    let tol = pc.tol;
+    rep.eval();
+    rep.count(&format!("{}/cases", fl), 1);
+    rep.count(&format!("degree_{:02}/cases", deg), 1);
+    rep.count(if pc.real_type { "type_f64/cases" } else { "type_complex/cases" }, 1);
+    if tol <= 4.0 * floor {
+        rep.count("cases_tol_within_4x_of_noise_floor", 1);
+    }
+    let out = pc.call();
+    let case = || pc.json().set("true_roots_re_im", cj(&truth)).set("tolerance_floor", floor);
+    let found = match out {
+        Guarded::Ok(Ok(v)) => v,
+        Guarded::Ok(Err(e)) => {
+            let sig = if e.contains("maximum iterations") { "roots/err-max-iterations" } else if e.contains("Leading 0") { "roots/err-leading-zero" } else { "roots/err-other" };
+            let sig = match pc.pin {
+                Some(k) if e.contains("maximum iterations") => format!("roots/err-max-iterations/cycle-anchor-{}", k),
+                _ => sig.to_string(),
+            };
+            rep.violation(&sig, case(), format!("degree {} ({}): roots returned Err(\"{}\") for a polynomial with separated roots", deg, fl, e));
+            return;
+        }
+        Guarded::Budget => {
+            rep.inconclusive("budget");
+            return;
+        }
+        Guarded::Panic(m, l) => {
+            rep.violation("roots/panic", case(), format!("degree {} ({}): roots panicked: '{}' at {}", deg, fl, m, l));
+            return;
+        }
+    };
+    rep.count("ok_results", 1);
+    if deg >= 3 {
+        rep.nontrivial(pc.hash());
+        rep.count(&format!("{}/cases_degree_ge3", fl), 1);
+    }
+    let case = || case().set("returned_re_im", cj(&found));
+    if found.len() != deg {
+        rep.violation("roots/count", case(), format!("degree {} ({}): {} values returned", deg, fl, found.len()));
+        return;
+    }
+    if found.iter().any(|z| !z.re.is_finite() || !z.im.is_finite()) {
+        rep.violation("roots/non-finite", case(), format!("degree {} ({}): non-finite value returned", deg, fl));
+        return;
+    }
+    // residuals
+    let mut worst = (0.0f64, 0usize);
+    let mut resid = vec![];
+    for (i, z) in found.iter().enumerate() {
+        let (p, d) = dd::eval(&pc.asc, Z::c(*z));
+        let r = p.val().norm();
+        let ratio = r / (tol + EPS * ptilde(&pc.asc, z.norm()));
+        resid.push((r, d.val().norm()));
+        if !(ratio <= worst.0) {
+            worst = (ratio, i);
+        }
+    }
+    rep.max("roots/residual_over_unit", worst.0);
+    rep.max(&format!("roots/residual_over_unit/{}", if deg <= 2 { "closed-form" } else { fl }), worst.0);
+    if !(worst.0 <= K_RES) {
+        rep.violation(
+            "roots/residual",
+            case(),
+            format!("degree {} ({}): |p(z)| = {:e} at returned value #{} {:?} is {:.3} x (tol + eps p~(|z|)), bound {}", deg, fl, resid[worst.1].0, worst.1, found[worst.1], worst.0, K_RES),
+        );
+        return;
+    }
+    // one-to-one matching with the true roots
+    let unit: Vec<f64> = truth.iter().zip(&dps).map(|(r, d)| (tol + EPS * ptilde(&pc.asc, r.norm())) / d).collect();
+    let bound = |j: usize| K_MATCH * unit[j] + FLOOR_ULPS * EPS * truth[j].norm();
+    // greedy nearest assignment gives the reported ratios
+    let mut used = vec![false; deg];
+    let mut greedy_ok = true;
+    let mut worst_m = (0.0f64, 0usize, 0usize);
+    for (i, z) in found.iter().enumerate() {
+        let mut best = (f64::INFINITY, 0usize);
+        for j in 0..deg {
+            if !used[j] {
+                let d = (*z - truth[j]).norm();
+                if d < best.0 {
+                    best = (d, j);
+                }
+            }
+        }
+        used[best.1] = true;
+        let excess = (best.0 - FLOOR_ULPS * EPS * truth[best.1].norm()).max(0.0);
+        let ratio = excess / unit[best.1];
+        if !(ratio <= worst_m.0) {
+            worst_m = (ratio, i, best.1);
+        }
+        if !(best.0 <= bound(best.1)) {
+            greedy_ok = false;
+        }
+    }
+    if !greedy_ok {
+        let adj: Vec<Vec<usize>> = found.iter().map(|z| (0..deg).filter(|&j| (*z - truth[j]).norm() <= bound(j)).collect()).collect();
+        if !perfect_matching(&adj) {
+            rep.violation(
+                "roots/match",
+                case(),
+                format!(
+                    "degree {} ({}): the returned values cannot be matched one-to-one with the true roots; returned #{} {:?} is {:e} from its nearest free true root {:?}, {:.3} x (tol + eps p~)/|p'|, bound {}",
+                    deg, fl, worst_m.1, found[worst_m.1], (found[worst_m.1] - truth[worst_m.2]).norm(), truth[worst_m.2], worst_m.0, K_MATCH
+                ),
+            );
+            return;
+        }
+        rep.count("matched_by_augmenting_paths", 1);
+    } else {
+        rep.max("roots/match_distance_over_unit", worst_m.0);
+        rep.max(&format!("roots/match_distance_over_unit/{}", if deg <= 2 { "closed-form" } else { fl }), worst_m.0);
+    }
+    // conjugate closure for real coefficients
+    if pc.real_type {
+        let b: Vec<f64> = found.iter().zip(&resid).map(|(z, (_, d))| K_MATCH * (tol + EPS * ptilde(&pc.asc, z.norm())) / d + FLOOR_ULPS * EPS * z.norm()).collect();
+        let adj: Vec<Vec<usize>> = (0..deg).map(|i| (0..deg).filter(|&j| (found[i] - found[j].conj()).norm() <= b[i] + b[j]).collect()).collect();
+        rep.count("conjugate_closure_checked", 1);
+        if !perfect_matching(&adj) {
+            rep.violation("roots/conjugate", case(), format!("degree {} ({}): real coefficients, but the returned values are not closed under conjugation within the matching bound", deg, fl));
+            return;
+        }
+    }
+    if rep.wants_sample() && deg >= 3 {
+        rep.sample(case().set("max_residual_over_unit", worst.0).set("max_match_distance_over_unit", worst_m.0));
+    }
+}
+
+// ------------------------------------------------------------------ generators
+fn separated(roots: &[C], cand: &[C]) -> bool {
+    cand.iter().all(|c| c.norm() <= DISC && roots.iter().all(|r| (r - c).norm() >= MIN_SEP))
+}
+
+fn gen_roots(rng: &mut Rng, deg: usize, real: bool) -> Vec<C> {
+    'again: loop {
+        let mut roots: Vec<C> = vec![];
+        let mut tries = 0;
+        while roots.len() < deg {
+            tries += 1;
+            if tries > 2000 {
+                continue 'again;
+            }
+            let cand: Vec<C> = if real {
+                if deg - roots.len() < 2 || rng.bool() {
+                    vec![C::new(rng.r(-DISC, DISC), 0.0)]
+                } else {
+                    let z = C::from_polar(DISC * rng.f().sqrt(), rng.r(0.0, std::f64::consts::PI));
+                    if z.im < 0.5 * MIN_SEP {
+                        continue;
+                    }
+                    vec![z, z.conj()]
+                }
+            } else {
+                vec![C::from_polar(DISC * rng.f().sqrt(), rng.r(0.0, 2.0 * std::f64::consts::PI))]
+            };
+            if separated(&roots, &cand) {
+                roots.extend(cand);
+            }
+        }
+        return roots;
+    }
+}
+
+fn gen_lead(rng: &mut Rng, real: bool) -> C {
+    let m = match rng.below(4) {
+        0 => 1.0,
+        1 => rng.r(0.5, 2.0),
+        _ => rng.log10(-2.0, 2.0),
+    };
+    if real {
+        C::new(m * rng.sign(), 0.0)
+    } else {
+        C::from_polar(m, rng.r(0.0, 2.0 * std::f64::consts::PI))
+    }
+}
+
+fn gen_u(rng: &mut Rng) -> f64 {
+    match rng.below(5) {
+        0 => -1.0,              // exactly the floor
+        1 => rng.r(0.0, 0.15),  // close to the floor
+        _ => rng.f(),
+    }
+}
+
+/// roots of x^n = c
+fn unity_roots(n: usize, c: C) -> Vec<C> {
+    let (m, a) = c.to_polar();
+    let r0 = C::from_polar(m.powf(1.0 / n as f64), a / n as f64);
+    (0..n).map(|k| r0 * C::from_polar(1.0, 2.0 * std::f64::consts::PI * k as f64 / n as f64)).collect()
+}
+
+fn min_radius(n: usize) -> f64 {
+    // adjacent roots on the circle of radius rho are 2 rho sin(pi/n) apart
+    if n < 2 {
+        0.31
+    } else {
+        (1.02 * 0.5 * MIN_SEP / (std::f64::consts::PI / n as f64).sin()).max(0.31)
+    }
+}
+
+/// x^n - c, exact or expanded
+fn sparse_xn_c(n: usize, c: C, lead: C, real_type: bool, exact: bool) -> PolyCase {
+    let roots = unity_roots(n, c);
+    let asc: Vec<C> = if exact {
+        let mut a = vec![C::new(0.0, 0.0); n + 1];
+        a[n] = lead;
+        a[0] = -lead * c;
+        a
+    } else {
+        expand(&roots, lead)
+    };
+    let asc = if real_type { asc.iter().map(|z| C::new(z.re, 0.0)).collect() } else { asc };
+    PolyCase { flavour: if exact { "sparse-exact" } else { "sparse-expanded" }, real_type, exact_sparse: exact, asc, built_from: roots, tol: 0.0, pin: None }
+}
+
+/// prod_i (x^m - c_i), exact zeros in between (coefficients of the polynomial in y = x^m are
+/// expanded in f64; the true roots are refined on the resulting coefficients)
+fn sparse_composite(rng: &mut Rng, real_type: bool) -> Option<PolyCase> {
+    let (m, k) = *rng.pick(&[(2usize, 2usize), (2, 3), (2, 4), (2, 5), (3, 2), (3, 3), (4, 2), (5, 2)]);
+    let mut cs: Vec<C> = vec![];
+    let mut roots: Vec<C> = vec![];
+    let mut tries = 0;
+    while cs.len() < k {
+        tries += 1;
+        if tries > 500 {
+            return None;
+        }
+        let rho = rng.r(min_radius(m), DISC);
+        let c = if real_type { C::new(rho.powi(m as i32) * rng.sign(), 0.0) } else { C::from_polar(rho.powi(m as i32), rng.r(0.0, 2.0 * std::f64::consts::PI)) };
+        let cand = unity_roots(m, c);
+        if separated(&roots, &cand) {
+            roots.extend(cand);
+            cs.push(c);
+        }
+    }
+    let lead = gen_lead(rng, real_type);
+    let in_y = expand(&cs, lead);
+    let mut asc = vec![C::new(0.0, 0.0); m * k + 1];
+    for (j, c) in in_y.iter().enumerate() {
+        asc[m * j] = if real_type { C::new(c.re, 0.0) } else { *c };
+    }
+    Some(PolyCase { flavour: "sparse-composite-exact", real_type, exact_sparse: true, asc, built_from: roots, tol: 0.0, pin: None })
+}
+
+// ------------------------------------------------------------------ orthogonal polynomials
+#[derive(Clone, Copy, PartialEq, Debug)]
+enum Fam {
+    Legendre,
+    Hermite,
+    Laguerre,
+}
+impl Fam {
+    fn name(self) -> &'static str {
+        match self {
+            Fam::Legendre => "legendre_zeros",
+            Fam::Hermite => "hermite_zeros",
+            Fam::Laguerre => "laguerre_zeros",
+        }
+    }
+    fn nmax(self) -> u32 {
+        match self {
+            Fam::Laguerre => 12,
+            _ => 16,
+        }
+    }
+}
+
+fn binom(n: u32, k: u32) -> u128 {
+    let mut acc: u128 = 1;
+    for i in 0..k {
+        acc = acc * (n - i) as u128 / (i + 1) as u128;
+    }
+    acc
+}
+fn fact(n: u32) -> u128 {
+    (1..=n as u128).product()
+}
+
+/// exact monomial coefficients (ascending) of the classical normalisation, rounded once to f64
+fn ortho_coefficients(fam: Fam, n: u32) -> Vec<f64> {
+    let mut a = vec![0.0; n as usize + 1];
+    match fam {
+        Fam::Legendre => {
+            for k in 0..=n / 2 {
+                let v = (binom(n, k) * binom(2 * n - 2 * k, n)) as f64 / (1u128 << n) as f64;
+                a[(n - 2 * k) as usize] = if k % 2 == 0 { v } else { -v };
+            }
+        }
+        Fam::Hermite => {
+            for k in 0..=n / 2 {
+                let v = (fact(n) / (fact(k) * fact(n - 2 * k)) * (1u128 << (n - 2 * k))) as f64;
+                a[(n - 2 * k) as usize] = if k % 2 == 0 { v } else { -v };
+            }
+        }
+        Fam::Laguerre => {
+            for k in 0..=n {
+                let v = binom(n, k) as f64 / fact(k) as f64;
+                a[k as usize] = if k % 2 == 0 { v } else { -v };
+            }
+        }
+    }
+    a
+}
+
+/// value and derivative of a positive multiple of the n-th polynomial by the division-free
+/// three-term recurrence, in double-double arithmetic
+fn ortho_eval(fam: Fam, n: u32, x: D) -> (D, D) {
+    let (mut p0, mut d0) = (D::f(1.0), D::f(0.0));
+    if n == 0 {
+        return (p0, d0);
+    }
+    let (mut p1, mut d1) = match fam {
+        Fam::Legendre => (x, D::f(1.0)),
+        Fam::Hermite => (x.mulf(2.0), D::f(2.0)),
+        Fam::Laguerre => (D::f(1.0).sub(x), D::f(-1.0)),
+    };
+    for k in 1..n {
+        let kf = k as f64;
+        let (p2, d2) = match fam {
+            // Q_k = k! P_k :  Q_{k+1} = (2k+1) x Q_k - k^2 Q_{k-1}
+            Fam::Legendre => {
+                let xq = x.mul(p1);
+                (xq.mulf(2.0 * kf + 1.0).sub(p0.mulf(kf * kf)), p1.add(x.mul(d1)).mulf(2.0 * kf + 1.0).sub(d0.mulf(kf * kf)))
+            }
+            // H_{k+1} = 2x H_k - 2k H_{k-1}
+            Fam::Hermite => (x.mul(p1).mulf(2.0).sub(p0.mulf(2.0 * kf)), p1.add(x.mul(d1)).mulf(2.0).sub(d0.mulf(2.0 * kf))),
+            // M_k = k! L_k :  M_{k+1} = (2k+1-x) M_k - k^2 M_{k-1}
+            Fam::Laguerre => {
+                let w = D::f(2.0 * kf + 1.0).sub(x);
+                (w.mul(p1).sub(p0.mulf(kf * kf)), w.mul(d1).sub(p1).sub(d0.mulf(kf * kf)))
+            }
+        };
+        p0 = p1;
+        d0 = d1;
+        p1 = p2;
+        d1 = d2;
+    }
+    (p1, d1)
+}
+
+/// zeros of the n-th polynomial: Jacobi-matrix eigenvalues polished by Newton (ascending)
+fn ortho_zeros(fam: Fam, n: u32) -> Result<Vec<f64>, String> {
+    if n == 0 {
+        return Ok(vec![]);
+    }
+    let m = n as usize;
+    let mut jm = nalgebra::DMatrix::<f64>::zeros(m, m);
+    for k in 0..m {
+        let kf = k as f64;
+        jm[(k, k)] = match fam {
+            Fam::Laguerre => 2.0 * kf + 1.0,
+            _ => 0.0,
+        };
+        if k + 1 < m {
+            let j = kf + 1.0;
+            let b = match fam {
+                Fam::Legendre => j / (4.0 * j * j - 1.0).sqrt(),
+                Fam::Hermite => (j / 2.0).sqrt(),
+                Fam::Laguerre => j,
+            };
+            jm[(k, k + 1)] = b;
+            jm[(k + 1, k)] = b;
+        }
+    }
+    let eig = nalgebra::linalg::SymmetricEigen::new(jm);
+    let mut ev: Vec<f64> = eig.eigenvalues.iter().copied().collect();
+    ev.sort_by(|a, b| a.partial_cmp(b).unwrap());
+    let mut out = vec![];
+    for e in ev {
+        let mut x = D::f(e);
+        let mut last = f64::INFINITY;
+        for _ in 0..8 {
+            let (p, d) = ortho_eval(fam, n, x);
+            let step = p.val() / d.val();
+            x = x.sub(D::f(step));
+            last = step.abs();
+            if last <= 1e-28 * (1.0 + x.val().abs()) {
+                break;
+            }
+        }
+        if !(last <= 1e-24 * (1.0 + x.val().abs())) || !((x.val() - e).abs() <= 1e-9 * (1.0 + e.abs())) {
+            return Err(format!("{:?} n={}: Newton polish of eigenvalue {:e} did not settle (last step {:e}, moved to {:e})", fam, n, e, last, x.val()));
+        }
+        out.push(x.val());
+    }
+    if out.windows(2).any(|w| !(w[0] < w[1])) {
+        return Err(format!("{:?} n={}: reference zeros not strictly increasing", fam, n));
+    }
+    Ok(out)
+}
+
+const ORTHO_TOLS: [f64; 8] = [1e-6, 1e-7, 1e-8, 1e-10, 1e-12, 0.0, -0.25, -0.01];
+const POLY_TOL: f64 = 1e-12;
+
+fn run_ortho(rep: &mut Report, fam: Fam, n: u32, tol_choice: f64) {
+    let name = fam.name();
+    let refz = match ortho_zeros(fam, n) {
+        Ok(z) => z,
+        Err(e) => {
+            rep.harness_errors.push(e);
+            return;
+        }
+    };
+    let a: Vec<C> = ortho_coefficients(fam, n).iter().map(|v| C::new(*v, 0.0)).collect();
+    // |p'(r)| of the monomial form
+    let dps: Vec<f64> = refz.iter().map(|r| dd::eval(&a, Z::c(C::new(*r, 0.0))).1.val().norm()).collect();
+    let roots_c: Vec<C> = refz.iter().map(|r| C::new(*r, 0.0)).collect();
+    let floor = if n >= 1 { tol_floor(&a, &roots_c, &dps, fam != Fam::Hermite) } else { 0.0 };
+    let lead = a[n as usize].norm();
+    // ladder entry: > 0 literal tolerance, 0 = the noise floor itself, < 0 = that fraction of the leading coefficient
+    let tol = if tol_choice > 0.0 {
+        tol_choice
+    } else if tol_choice == 0.0 {
+        floor.max(1e-14)
+    } else {
+        -tol_choice * lead
+    };
+    if n >= 2 {
+        rep.max(&format!("{}/tolerance_floor/n{:02}", name, n), floor);
+    }
+    if n >= 2 && !(tol < 0.5 * lead) {
+        // the library (rightly) refuses a leading coefficient below the tolerance
+        rep.count(&format!("{}/ladder_entries_not_below_half_leading_coefficient", name), 1);
+        return;
+    }
+    if !(tol <= 1e-6) {
+        // the property quantifies over tolerances from 1e-6 downwards
+        rep.count(&format!("{}/ladder_entries_above_1e-6", name), 1);
+        return;
+    }
+    // Ok is required only at or above the noise floor; below it an Err is tolerated, an Ok result is judged all the same
+    let ok_required = n <= 1 || tol >= floor;
+    rep.count(&format!("{}/{}", name, if ok_required { "cases_ok_required" } else { "cases_below_noise_floor" }), 1);
+    rep.eval();
+    rep.count(&format!("{}/cases", name), 1);
+    let out = probe::guard(|| match fam {
+        Fam::Legendre => legendre_zeros::<f64>(n, tol, POLY_TOL, N_MAX),
+        Fam::Hermite => hermite_zeros::<f64>(n, tol, POLY_TOL, N_MAX),
+        Fam::Laguerre => laguerre_zeros::<f64>(n, tol, POLY_TOL, N_MAX),
+    });
+    let case = || J::obj().set("call", format!("{}::<f64>(n, tol, poly_tol, n_max)", name)).set("n", n as u64).set("tol", tol).set("poly_tol", POLY_TOL).set("n_max", N_MAX).set("reference_zeros", J::fs(&refz)).set("tolerance_floor", floor);
+    let z = match out {
+        Guarded::Ok(Ok(z)) => z,
+        Guarded::Ok(Err(e)) => {
+            if ok_required {
+                rep.violation(&format!("{}/err", name), case(), format!("n={} tol={:e} (noise floor {:e}): Err(\"{}\")", n, tol, floor, e));
+            } else {
+                rep.inconclusive("zeros-err-with-tolerance-below-noise-floor");
+                rep.count(&format!("{}/err_below_noise_floor", name), 1);
+            }
+            return;
+        }
+        Guarded::Budget => {
+            rep.inconclusive("budget");
+            return;
+        }
+        Guarded::Panic(m, l) => {
+            rep.violation(&format!("{}/panic", name), case(), format!("n={} tol={:e}: panicked '{}' at {}", n, tol, m, l));
+            return;
+        }
+    };
+    let case = || case().set("returned", J::fs(&z));
+    rep.nontrivial(CaseHash::new("c14-ortho").s(name).u(n as u64).f(tol).0);
+    if n >= 3 {
+        rep.count(&format!("{}/cases_n_ge3", name), 1);
+    }
+    rep.count(&format!("{}/ok_n{:02}", name, n), 1);
+    if z.len() != n as usize {
+        rep.violation(&format!("{}/count", name), case(), format!("n={}: {} zeros returned", n, z.len()));
+        return;
+    }
+    if z.iter().any(|v| !v.is_finite()) {
+        rep.violation(&format!("{}/non-finite", name), case(), format!("n={}: non-finite zero", n));
+        return;
+    }
+    let inside = |v: f64| match fam {
+        Fam::Legendre => v > -1.0 && v < 1.0,
+        Fam::Hermite => true,
+        Fam::Laguerre => v > 0.0,
+    };
+    if let Some(v) = z.iter().find(|v| !inside(**v)) {
+        rep.violation(&format!("{}/outside-interval", name), case(), format!("n={}: zero {:e} outside the orthogonality interval", n, v));
+        return;
+    }
+    let mut s = z.clone();
+    s.sort_by(|a, b| a.partial_cmp(b).unwrap());
+    if s.windows(2).any(|w| !(w[0] < w[1])) {
+        rep.violation(&format!("{}/not-distinct", name), case(), format!("n={}: zeros are not pairwise distinct", n));
+        return;
+    }
+    // both sorted: the k-th smallest must match the k-th reference zero
+    for k in 0..s.len() {
+        let r = refz[k];
+        let pt = ptilde(&a, r.abs());
+        let unit = tol * (1.0f64).max(1.0 / dps[k]) + EPS * pt / dps[k];
+        let dist = (s[k] - r).abs();
+        let ratio = (dist - FLOOR_ULPS * EPS * r.abs()).max(0.0) / unit;
+        rep.max(&format!("{}/distance_over_unit", name), ratio);
+        if !(dist <= K_ZERO * unit + FLOOR_ULPS * EPS * r.abs()) {
+            rep.violation(&format!("{}/match", name), case(), format!("n={} tol={:e}: zero #{} (ascending) {:.17e} differs from the true zero {:.17e} by {:e} = {:.3} units, bound {}", n, tol, k, s[k], r, dist, ratio, K_ZERO));
+            return;
+        }
+    }
+    rep.count(&format!("{}/zeros_matched", name), n as i64);
+    if rep.wants_sample() && n >= 5 && tol_choice == 1e-8 {
+        rep.sample(case());
+    }
+}
+
+// ------------------------------------------------------------------ anchors
+fn anchor_cases() -> Vec<(PolyCase, f64)> {
+    let mut v = vec![];
+    let re = |x: f64| C::new(x, 0.0);
+    // x^n - c both flavours, real type; radii: smallest admissible, 1, 2.5; both signs of c
+    for n in 3..=10usize {
+        for (k, rho) in [min_radius(n).max(0.5), 1.0, 2.5].into_iter().enumerate() {
+            for sgn in [1.0, -1.0] {
+                for exact in [true, false] {
+                    let c = re(sgn * rho.powi(n as i32));
+                    v.push((sparse_xn_c(n, c, re(1.0), true, exact), [0.5, -1.0, 0.2][k]));
+                }
+            }
+        }
+    }
+    // complex c
+    for n in 3..=10usize {
+        for exact in [true, false] {
+            let c = C::from_polar(1.3f64.powi(n as i32), 0.7 + n as f64);
+            v.push((sparse_xn_c(n, c, C::new(0.6, -0.8), false, exact), 0.5));
+        }
+    }
+    // dense, fixed
+    let dense: Vec<(Vec<C>, bool)> = vec![
+        (vec![re(1.5)], true),
+        (vec![re(1.0), re(2.0)], true),
+        (vec![C::new(-0.5, 0.8660254037844386), C::new(-0.5, -0.8660254037844386)], true),
+        (vec![re(0.0), re(1.0), re(-1.0)], true),
+        (vec![re(0.0), re(1.0), re(-1.0), re(2.0), re(-2.0)], true),
+        (vec![re(1.0), re(2.0), re(3.0), re(-1.0), re(-2.0), re(-3.0), C::new(0.0, 1.0), C::new(0.0, -1.0)], true),
+        (vec![C::new(1.0, 1.0), C::new(1.0, -1.0), C::new(-1.0, 2.0), C::new(-1.0, -2.0), re(0.5), re(-2.5), re(2.9)], true),
+        (vec![C::new(0.0, 1.0), C::new(0.0, -1.0), C::new(0.0, 2.0), C::new(0.0, -2.0)], true),
+        (vec![C::new(0.3, 0.4), C::new(-1.0, 0.2), C::new(2.0, -2.0), C::new(0.0, -1.5), C::new(-2.2, 1.1), C::new(1.1, 1.9)], false),
+        (vec![C::new(0.0, 0.0), C::new(0.0, 1.0), C::new(1.0, 0.0)], false),
+        ((0..10).map(|k| re(-2.7 + 0.6 * k as f64)).collect(), true),
+        ((0..10).map(|k| C::from_polar(0.6 + 0.24 * k as f64, 0.9 * k as f64)).collect(), false),
+    ];
+    for (roots, real) in dense {
+        for (lead, u) in [(1.0, 0.5), (0.37, -1.0), (12.5, 0.9)] {
+            let lead = if real { re(lead) } else { C::from_polar(lead, 1.0) };
+            let asc = expand(&roots, lead);
+            let asc = if real { asc.iter().map(|z| re(z.re)).collect() } else { asc };
+            v.push((PolyCase { flavour: "dense", real_type: real, exact_sparse: false, asc, built_from: roots.clone(), tol: 0.0, pin: None }, u));
+        }
+    }
+    v
+}
+
+
+// ------------------------------------------------------------------ pinned inputs
+/// Four in-class inputs on which the Laguerre stage of `roots` falls into a stable two-cycle
+/// (found by the thorough tier, seed 1, on the tree with the 30 repairs). They are judged by the
+/// ordinary oracle; only an `Err(maximum iterations)` carries a signature of its own per input,
+/// so that registering them as known findings cannot mask any other failure.
+fn cycle_anchor_cases() -> Vec<PolyCase> {
+    let data: Vec<(&'static str, bool, Vec<f64>, f64, Vec<(f64, f64)>)> = vec![
+        ("dense", false, vec![66.24107066960087, -86.54431770201911, 42.7657283173379, -15.275464312457736, 10.836755283479027, -0.9573749116178977, -1.1223003484234715, -0.6926681924863398, -0.4315686699014569, -0.0732602698764053, -0.03003421789489702], 1.9618083784337897e-07, vec![(1.0676259328636222, 0.6664636147524357), (1.0676259328636222, -0.6664636147524357), (0.29107039356683245, 2.9824140541686455), (0.29107039356683245, -2.9824140541686455), (-1.4635606731587718, 2.574526154904373), (-1.4635606731587718, -2.574526154904373), (-0.3340336049566946, 2.0525225310539), (-0.3340336049566946, -2.0525225310539), (-2.9482093779255942, 0.0), (1.3867784589833034, 0.0)]),
+        ("dense", false, vec![-16.198587862550163, -7.066691992202271, 37.89451204231043, 43.64195169646654, 12.897269044484805, 8.398356270233155, 12.881507404113062, 1.7794777073556545, 0.24894538167291147, 1.0], 2.1056431047640218e-09, vec![(1.1290146708995226, 1.7711745490360158), (1.1290146708995226, -1.7711745490360158), (-1.798960797397808, 0.0), (0.5429639002760043, 0.0), (-0.8502827161285537, 0.5619637308452209), (-0.8502827161285537, -0.5619637308452209), (-1.001518482861423, 0.0), (0.7255530443841887, 1.7569191336264294), (0.7255530443841887, -1.7569191336264294)]),
+        ("sparse-composite-exact", true, vec![0.0353800746665446, 0.0, 0.0, -0.19535979691196925, 0.0, 0.0, -2.6218646843426883, 0.0, 0.0, 0.3789659261743441], 2.070046868587689e-12, vec![(0.26969842980217734, 0.46713138313891933), (-0.5393968596043546, 1.6653345369377348e-16), (0.26969842980217706, -0.4671313831389195), (1.912047752181344, 0.0), (-0.9560238760906715, 1.6558819266379767), (-0.9560238760906729, -1.655881926637976), (0.4398578826981009, 0.0), (-0.21992894134905033, 0.3809281004713911), (-0.21992894134905064, -0.380928100471391)]),
+        ("sparse-composite-exact", true, vec![-19.483882281933866, 0.0, -10.38751758720168, 0.0, 1.6532944631356743, 0.0, 0.8478684000656279, 0.0, 0.06263102516870475], 8.509232511928814e-10, vec![(1.800343706737584, 0.0), (-1.800343706737584, 2.2047851578212636e-16), (1.8322973954145613e-16, 2.992368733075166), (-5.496892186243684e-16, -2.992368733075166), (8.147688463707106e-17, 1.330618504760694), (-2.444306539112132e-16, -1.330618504760694), (1.506606207066966e-16, 2.460474657862045), (-4.519818621200899e-16, -2.460474657862045)]),
+    ];
+    data.into_iter()
+        .enumerate()
+        .map(|(k, (flavour, exact, co, tol, roots))| PolyCase {
+            flavour,
+            real_type: true,
+            exact_sparse: exact,
+            asc: co.iter().map(|v| C::new(*v, 0.0)).collect(),
+            built_from: roots.iter().map(|r| C::new(r.0, r.1)).collect(),
+            tol,
+            pin: Some(k + 1),
+        })
+        .collect()
+}
+
+fn ortho_cases() -> Vec<(Fam, u32, f64)> {
+    let mut v = vec![];
+    for fam in [Fam::Legendre, Fam::Hermite, Fam::Laguerre] {
+        for n in 0..=fam.nmax() {
+            for t in ORTHO_TOLS {
+                v.push((fam, n, t));
+            }
+        }
+    }
+    v
+}
+
+pub fn stages(ctx: &Ctx) -> Vec<Stage> {
+    let seed = ctx.seed;
+    let tier = ctx.tier;
+    let mut st = vec![];
+    let anchors = anchor_cases();
+    let na = anchors.len() as u64;
+    st.push(Stage::new("anchors", na, move |i, rep| {
+        let (pc, u) = anchors[i as usize].clone();
+        run_poly(rep, pc, u);
+    }));
+    let cyc = cycle_anchor_cases();
+    st.push(Stage::new("cycle-anchors", cyc.len() as u64, move |i, rep| {
+        rep.count("cycle_anchor_cases", 1);
+        run_poly(rep, cyc[i as usize].clone(), 0.0);
+    }));
+    let oc = ortho_cases();
+    let no = oc.len() as u64;
+    st.push(Stage::new("ortho", no, move |i, rep| {
+        let (fam, n, t) = oc[i as usize];
+        run_ortho(rep, fam, n, t);
+    }));
+    st.push(Stage::new("random", tier.pick(12_000, 600_000), move |i, rep| {
+        let mut rng = Rng::for_case(seed, "c14-random", i);
+        let real = i % 2 == 0;
+        let deg = 1 + (i / 2 % 10) as usize;
+        let roots = gen_roots(&mut rng, deg, real);
+        let lead = gen_lead(&mut rng, real);
+        let asc = expand(&roots, lead);
+        // real polynomials also go through the complex type now and then
+        let real_type = real && !rng.chance(0.15);
+        let asc: Vec<C> = if real { asc.iter().map(|z| C::new(z.re, 0.0)).collect() } else { asc };
+        let u = gen_u(&mut rng);
+        run_poly(rep, PolyCase { flavour: "dense", real_type, exact_sparse: false, asc, built_from: roots, tol: 0.0, pin: None }, u);
+    }));
+    st.push(Stage::new("sparse", tier.pick(4_800, 240_000), move |i, rep| {
+        let mut rng = Rng::for_case(seed, "c14-sparse", i);
+        let real_type = rng.bool();
+        let u = gen_u(&mut rng);
+        if i % 3 == 2 {
+            match sparse_composite(&mut rng, real_type) {
+                Some(pc) => run_poly(rep, pc, u),
+                None => rep.count("sparse_composite_generation_gave_up", 1),
+            }
+            return;
+        }
+        let exact = i % 3 == 0;
+        let n = 1 + (i / 3 % 10) as usize;
+        let rho = rng.r(min_radius(n), DISC);
+        let c = if real_type { C::new(rho.powi(n as i32) * rng.sign(), 0.0) } else { C::from_polar(rho.powi(n as i32), rng.r(0.0, 2.0 * std::f64::consts::PI)) };
+        let lead = gen_lead(&mut rng, real_type);
+        run_poly(rep, sparse_xn_c(n, c, lead, real_type, exact), u);
+    }));
+    st
+}
+
+pub fn thresholds(ctx: &Ctx, rep: &Report) -> Vec<Threshold> {
+    let mut t = vec![];
+    let q = |a: f64, b: f64| ctx.tier.pick(a, b);
+    t.push(Threshold { what: "dense polynomials of degree >= 3 judged".into(), required: q(8_000.0, 400_000.0), observed: rep.counter("dense/cases_degree_ge3") as f64 });
+    t.push(Threshold { what: "exactly sparse x^n - c of degree >= 3 judged".into(), required: q(1_000.0, 50_000.0), observed: rep.counter("sparse-exact/cases_degree_ge3") as f64 });
+    t.push(Threshold { what: "sparse x^n - c expanded from roots, degree >= 3, judged".into(), required: q(1_000.0, 50_000.0), observed: rep.counter("sparse-expanded/cases_degree_ge3") as f64 });
+    t.push(Threshold { what: "sparse products prod(x^m - c_i) judged".into(), required: q(1_000.0, 50_000.0), observed: rep.counter("sparse-composite-exact/cases_degree_ge3") as f64 });
+    t.push(Threshold { what: "cases with the tolerance within 4x of the noise floor".into(), required: q(3_000.0, 150_000.0), observed: rep.counter("cases_tol_within_4x_of_noise_floor") as f64 });
+    t.push(Threshold { what: "real-coefficient results checked for conjugate closure".into(), required: q(5_000.0, 250_000.0), observed: rep.counter("conjugate_closure_checked") as f64 });
+    t.push(Threshold { what: "fraction of polynomial cases with an Ok result".into(), required: 0.9, observed: rep.counter("ok_results") as f64 / ((rep.counter("type_f64/cases") + rep.counter("type_complex/cases")).max(1) as f64) });
+    for (f, need) in [("legendre_zeros", 40.0), ("hermite_zeros", 40.0), ("laguerre_zeros", 20.0)] {
+        t.push(Threshold { what: format!("{} (n, tol) cases with n >= 3 judged", f), required: need, observed: rep.counter(&format!("{}/cases_n_ge3", f)) as f64 });
+    }
+    t
 }
